@@ -148,9 +148,10 @@ def rule_apply_window(chk: Check, model: Model, rid: str):
     wins = [e for e in sub if e.kind == "call" and e.name == "new:Window" and e.func == f_aw.qualname]
     if len(wins) == 1:
         seqv = _fields(wins[0].term).get("seq", T.NONE)
-        # [-1] * (c.window + c.delay_dist.window(sender rate))
-        ok = seqv[0] == "call" and seqv[1] == "*" and seqv[2][0] == ("list", (T.const(-1),))
-        n = seqv[2][1] if ok else T.NONE
+        # [-1] * (c.window + c.delay_dist.window(sender rate))   (or full((n,), -1))
+        fill = _const_fill(seqv)
+        ok = fill is not None and T.const_value(fill[0]) == -1
+        n = fill[1] if ok else T.NONE
         conn = None
         for x in T.walk(n):
             if x[0] == "attr" and x[2] == "window" and x[1][0] == "index":
@@ -163,7 +164,9 @@ def rule_apply_window(chk: Check, model: Model, rid: str):
         chk.add(rid, "window length = window + delay_dist.window(sender rate)", bool(ok), f"initial window length is {T.show(n)[:240]}, expected c.window + c.delay_dist.window(nodes[sender].rate)",
                 chk.loc(f_aw, wins[0].node))
         f = _fields(wins[0].term)
-        chk.add(rid, "initial window is all -1 / 0.0", T.call_name(f.get("ts_sent", T.NONE)) == "*" if f.get("ts_sent", T.NONE)[0] == "call" else False, "initial ts_sent must be zeros", chk.loc(f_aw, wins[0].node))
+        fs, fr = _const_fill(f.get("ts_sent", T.NONE)), _const_fill(f.get("ts_recv", T.NONE))
+        chk.add(rid, "initial window is all -1 / 0.0", fs is not None and T.const_value(fs[0]) == 0 and fs[1] == n and (fr is None or (T.const_value(fr[0]) == 0 and fr[1] == n)),
+                "initial ts_sent / ts_recv must be zeros of the window length", chk.loc(f_aw, wins[0].node))
     else:
         chk.unknown(rid, "window length", f"expected one initial Window, found {len(wins)}", chk.loc(f_aw))
     scans = [e for e in sub if e.kind == "call" and e.name == "jax.lax.scan" and e.func == f_aw.qualname]
@@ -345,6 +348,98 @@ def flow_atoms(t):
 
 
 # ------------------------------------------------------------------------------------------------
+def _container_roots(fn: ast.FunctionDef):
+    """Def-use over one function, in source order with strong updates: for every expression node, the set of (root name, constant keys...)
+    paths of the containers its value is taken from.  Dynamic keys, slices, attribute reads and calls are transparent."""
+    env, out = {}, {}
+
+    def roots(e):
+        if isinstance(e, ast.Name):
+            rs = env.get(e.id, {(e.id,)})
+        elif isinstance(e, ast.Subscript):
+            base = roots(e.value)
+            rs = {b + (e.slice.value,) for b in base} if isinstance(e.slice, ast.Constant) and isinstance(e.slice.value, str) else base
+            out[id(e.slice)] = roots(e.slice) if not isinstance(e.slice, (ast.Constant, ast.Slice)) else set()
+        elif isinstance(e, ast.Attribute):
+            rs = roots(e.value)
+        elif isinstance(e, ast.Call):
+            rs = set()
+            if isinstance(e.func, ast.Attribute):
+                recv = roots(e.func.value)
+                if e.func.attr in ("items", "values", "keys", "get", "copy", "transpose", "tolist", "astype", "reshape", "pop"):
+                    rs |= recv  # (a view / copy of the container itself; onp.array(x) and the like only pass x through)
+            for a in list(e.args) + [k.value for k in e.keywords]:
+                rs |= roots(a)
+        elif isinstance(e, (ast.Tuple, ast.List)):
+            rs = set().union(*[roots(x) for x in e.elts]) if e.elts else set()
+        elif isinstance(e, ast.Starred):
+            rs = roots(e.value)
+        elif isinstance(e, (ast.DictComp, ast.ListComp, ast.SetComp, ast.GeneratorExp, ast.Dict, ast.Constant, ast.Lambda)):
+            rs = set()
+        else:
+            rs = set().union(*[roots(c) for c in ast.iter_child_nodes(e) if isinstance(c, ast.expr)]) if list(ast.iter_child_nodes(e)) else set()
+        out[id(e)] = rs
+        return rs
+
+    def bind(t, rs):
+        if isinstance(t, ast.Name):
+            env[t.id] = rs if rs else {(t.id,)}
+        elif isinstance(t, (ast.Tuple, ast.List)):
+            for x in t.elts:
+                bind(x, rs)
+        elif isinstance(t, ast.Starred):
+            bind(t.value, rs)
+
+    def block(stmts):
+        for st in stmts:
+            if isinstance(st, ast.Assign):
+                rs = roots(st.value)
+                for t in st.targets:
+                    if isinstance(t, (ast.Subscript, ast.Attribute)):
+                        roots(t)
+                    else:
+                        bind(t, rs)
+            elif isinstance(st, (ast.For, ast.AsyncFor)):
+                bind(st.target, roots(st.iter))
+                block(st.body)
+                block(st.orelse)
+            elif isinstance(st, (ast.If, ast.While)):
+                roots(st.test)
+                block(st.body)
+                block(st.orelse)
+            elif isinstance(st, ast.With):
+                block(st.body)
+            elif isinstance(st, ast.Try):
+                block(st.body)
+                for h in st.handlers:
+                    block(h.body)
+                block(st.orelse)
+                block(st.finalbody)
+            elif isinstance(st, ast.Expr):
+                roots(st.value)
+            elif isinstance(st, (ast.AugAssign, ast.AnnAssign)) and st.value is not None:
+                roots(st.value)
+            elif isinstance(st, ast.Return) and st.value is not None:
+                roots(st.value)
+    block(fn.body)
+    return out
+
+
+def _const_fill(t):
+    """(value, length) of a one-dimensional array filled with one constant: [c] * n, full((n,), c) (= c * ones((n,))), zeros((n,)), ones((n,))."""
+    def _len(shape):
+        return shape[1][0] if shape[0] == "tuple" and len(shape[1]) == 1 else shape
+    if t[0] == "call" and t[1] == "*" and len(t[2]) == 2 and t[2][0][0] in ("list", "tuple") and len(t[2][0][1]) == 1:
+        return t[2][0][1][0], t[2][1]
+    if t[0] == "call" and T.call_name(t) in ("jax.numpy.zeros", "numpy.zeros", "jax.numpy.ones", "numpy.ones") and t[2]:
+        return (T.ZERO if T.call_name(t).endswith("zeros") else T.ONE), _len(t[2][0])
+    if t[0] == "num" and len(t[1]) == 1 and t[2] == T.POLY_ONE and len(t[1][0][0]) == 1 and t[1][0][0][0][1] == 1:
+        a = t[1][0][0][0][0]
+        if a[0] == "call" and T.call_name(a) in ("jax.numpy.ones", "numpy.ones") and a[2]:
+            return T.num_const(t[1][0][1]), _len(a[2][0])
+    return None
+
+
 def rule_to_timings(chk: Check, model: Model, rid: str):
     fi = model.func("utils.to_timings")
     chk.used(fi.qualname)
@@ -387,17 +482,25 @@ def rule_to_timings(chk: Check, model: Model, rid: str):
     chk.add(rid, "window fields filled", {e.recv[2] for e in win_st} == {"seq", "ts_sent", "ts_recv"}, f"filled window fields: {sorted({e.recv[2] for e in win_st})}", chk.loc(fi))
     chk.add(rid, "all copies use the same source index", len(srcidx) == 1, f"{len(srcidx)} different source index expressions", chk.loc(fi))
     chk.add(rid, "one source vertex per slot", len(vbase) == 1 and all(mentions(b, "kind") and mentions(b, "vertices") for b in vbase), "the three slot fields must come from graphs.vertices[slot.kind]", chk.loc(fi))
-    # index provenance: target (eps, partition) from 'slots', source (eps, seq) from 'fill'
-    if len(keys) == 1 and len(srcidx) == 1:
-        k, s = next(iter(keys)), next(iter(srcidx))
-        chk.add(rid, "target index from the slot list, source index from the fill list", mentions(k, "slots") or any(x == ("const", "slots") for x in T.walk(k)) and any(x == ("const", "fill") for x in T.walk(s)),
-                "target must be indexed by (episode, partition), source by (episode, seq)", chk.loc(fi))
-        okk = any(x == ("const", "slots") for x in T.walk(k)) and not any(x == ("const", "fill") for x in T.walk(k))
-        oks = any(x == ("const", "fill") for x in T.walk(s)) and not any(x == ("const", "slots") for x in T.walk(s))
-        chk.add(rid, "index lists not mixed up", okk and oks, "the slot index must come from indices['slots'] only and the fill index from indices['fill'] only", chk.loc(fi))
-    apps = [e for e in r.events if e.kind == "call" and e.name.endswith(".append") and len(e.loops) == 2]
-    sl = [e for e in apps if any(x == ("const", "slots") for x in T.walk(e.recv))]
-    fl = [e for e in apps if any(x == ("const", "fill") for x in T.walk(e.recv))]
+    # index provenance: the two index lists are told apart by what is appended to them - (eps, partition) vs (eps, int(vertex seq)) - and
+    # followed from the append to the copy statements by a def-use pass over the function (which container, which constant key), so
+    # neither the names nor the nesting of the containers matter
+    apps = [e for e in r.events if e.kind == "call" and e.name.endswith(".append") and len(e.loops) == 2 and e.args and e.args[0][0] == "tuple" and len(e.args[0][1]) == 2]
+    fl = [e for e in apps if e.args[0][1][1][0] == "call" and e.args[0][1][1][1] == "int"]
+    sl = [e for e in apps if e not in fl]
+    if len(sl) == 1 and len(fl) == 1:
+        du = _container_roots(fi.node)
+        ra, rb = du.get(id(sl[0].node.func.value), set()), du.get(id(fl[0].node.func.value), set())
+        copies = [n for n in ast.walk(fi.node) if isinstance(n, ast.Assign) and len(n.targets) == 1 and isinstance(n.targets[0], ast.Subscript)
+                  and isinstance(n.targets[0].value, ast.Attribute) and n.targets[0].value.attr in ("seq", "ts_start", "ts_end", "ts_sent", "ts_recv")
+                  and isinstance(n.value, ast.Subscript)]
+        tgt = [du.get(id(n.targets[0].slice), set()) for n in copies]
+        src = [du.get(id(n.value.slice), set()) for n in copies]
+        chk.add(rid, "target index from the slot list, source index from the fill list", bool(copies) and bool(ra) and bool(rb) and ra != rb and all(t == ra for t in tgt) and all(x == rb for x in src),
+                f"target must be indexed by (episode, partition), source by (episode, seq); the copies index their targets with {sorted(map(str, set().union(*tgt) if tgt else []))} and their sources with "
+                f"{sorted(map(str, set().union(*src) if src else []))}, the (eps, partition) list is {sorted(map(str, ra))}, the (eps, seq) list is {sorted(map(str, rb))}", chk.loc(fi))
+        chk.add(rid, "index lists not mixed up", all(not (t & rb) for t in tgt) and all(not (x & ra) for x in src), "the slot index must come from the (episode, partition) list only and the fill "
+                "index from the (episode, vertex seq) list only", chk.loc(fi))
     ok = len(sl) == 1 and len(fl) == 1
     if ok:
         a, b = sl[0].args[0], fl[0].args[0]
